@@ -80,6 +80,27 @@ def inconsistencies(ds):
     c, n, l = clone(); e = first_line_with_trip(l)
     if e:
         e[1] = sub_first(e[1], r'pathUuid = "[^"]+"', 'pathUuid = "not-a-uuid"'); out.append(("trip_bad_uuid_text", (c, n, l)))
+    # stop times that go backwards (decodable, every count fits): one trip whose second arrival precedes its first departure;
+    # every trip of every line with all arrivals before the departures (then no schedule is left)
+    c, n, l = clone(); e = first_line_with_trip(l)
+    if e:
+        md = re.search(r'nodeDepartureTimesSeconds = \[([^\]]*)\]', e[1])
+        ma = re.search(r'nodeArrivalTimesSeconds = \[([^\]]*)\]', e[1])
+        dep = [x.strip() for x in md.group(1).split(",") if x.strip()] if md else []
+        arr = [x.strip() for x in ma.group(1).split(",") if x.strip()] if ma else []
+        if len(arr) >= 2 and dep:
+            arr[1] = str(int(dep[0]) - 1)
+            e[1] = e[1][:ma.start()] + 'nodeArrivalTimesSeconds = [' + ", ".join(arr) + ']' + e[1][ma.end():]
+        out.append(("trip_arrival_before_departure", (c, n, l)))
+    c, n, l = clone(); e = first_line_with_trip(l)
+    if e:
+        e[1] = sub_first(e[1], r'nodeDepartureTimesSeconds = \[[^,\]]*', 'nodeDepartureTimesSeconds = [ -1'); out.append(("trip_negative_departure", (c, n, l)))
+    c, n, l = clone()
+    if first_line_with_trip(l):
+        for e in l:
+            e[1] = re.sub(r'nodeArrivalTimesSeconds = \[([^\]]*)\]',
+                          lambda m: 'nodeArrivalTimesSeconds = [ ' + ", ".join("-5" for x in m.group(1).split(",") if x.strip()) + ']', e[1])
+        out.append(("trips_times_backwards", (c, n, l)))
     # line -> unknown agency / unknown mode
     c, n, l = clone(); set_coll(c, "lines.capnpbin", lambda t: sub_first(t, r'agencyUuid = "[^"]+"', 'agencyUuid = "%s"' % UNKNOWN)); out.append(("line_unknown_agency", (c, n, l)))
     c, n, l = clone(); set_coll(c, "lines.capnpbin", lambda t: sub_first(t, r'mode = "[^"]+"', 'mode = "hovercraft"')); out.append(("line_unknown_mode", (c, n, l)))
